@@ -72,6 +72,10 @@ def make_ss_request_job(N, kind, akind, tier, nseg, sizes):
         enc = prog.find_impl_fn('AEADCipherCodec', 'encode', file_part='tcp.rs')
         secs = z3.BitVec('clock_secs', 64)
         # the clock does not move between the client's write and the server's read (timestamps are compared by C10)
+        # independent random salts of the two ends do not collide
+        csalt = csess.fields[1].fields[0].arr
+        ssalt = z3.Array('server_salt', BV64, BV8)
+        pcs.append(z3.Or(*[z3.Select(csalt, bv64(i)) != z3.Select(ssalt, bv64(i)) for i in range(N)]))
         paths = ex.run(enc, [Ref('#self'), Ref('#ctx'), Ref('#sess'), items[0], Ref('#dst')], pcs + [secs >= 0, secs < (1 << 62)], st0=st0)
         for i in range(1, W):
             nxt = []
@@ -88,6 +92,7 @@ def make_ss_request_job(N, kind, akind, tier, nseg, sizes):
         sctx = Agg('struct', (case.st0['#ctx'].fields[0], List(()), cipher_kind(kind), opt_none(), Opaque('nonce_cache')), 'Context')
         site = dec.name + '@framed'
         ndone = 0
+        nresp = [0]
         ex.inputs = {'write%d' % i: items[i] for i in range(W)}
         ex.inputs.update(ains)
 
@@ -141,9 +146,52 @@ def make_ss_request_job(N, kind, akind, tier, nseg, sizes):
                     msgs = [v.fields[0] for v in rel]
                     want = [(b.arr, b.off, b.len) for b in items]
                     prove_concat(ctx, ex, q, msgs, want, 'bytes released by the server differ from the bytes the application wrote', site, replay=rp)
-        ctx.out.vacuity = [('some composition runs to the end', ndone > 0)]
-        ctx.out.samples.append({'composition': 'client tcp::AEADCipherCodec::encode -> server PayloadCodec::decode', 'cipher': kind, 'write_sizes': list(sizes), 'segments': nseg, 'runs': ndone})
+                    if ok_first and nseg == 1:
+                        nresp[0] += response_leg(ctx, ex, q, enc, case, N, kind)
+        ctx.out.vacuity = [('some composition runs to the end', ndone > 0)] + ([('some response leg runs to the end', nresp[0] > 0)] if nseg == 1 else [])
+        ctx.out.samples.append({'composition': 'client tcp::AEADCipherCodec::encode -> server PayloadCodec::decode -> server encode -> client decode', 'cipher': kind, 'write_sizes': list(sizes), 'segments': nseg, 'runs': ndone})
     return job
+
+
+def response_leg(ctx, ex, q, enc, case, N, kind):
+    """the answer: the REAL server encoder (the session that just decoded the request: its request-salt echo, its own salt) writes
+    two target writes, the REAL client decoder (the codec object that encoded the request) reads them: released == written"""
+    rsizes = (3, 40)
+    ritems = [Buf('bytesmut', z3.Array('answer%d' % i, BV64, BV8), bv64(0), bv64(n)) for i, n in enumerate(rsizes)]
+    st = q.fork()
+    st.status, st.ret = q.status, q.ret
+    st.st['#dst2'] = Buf('bytesmut', fresh_bytes('dst2'), bv64(0), bv64(0))
+    cipher = Ref('#server', (('field', 2),))
+    sess = Ref('#server', (('field', 1),))
+    paths = [st]
+    for it in ritems:
+        nxt = []
+        for p in paths:
+            for r in ex.resume(p, enc, [cipher, Ref('#sctx'), sess, it, Ref('#dst2')]):
+                if r.status == 'return' and ex.check(r.pcs + [r.ret.disc == 0])[0]:
+                    r.pcs.append(r.ret.disc == 0)
+                    nxt.append(r)
+                else:
+                    ctx.absorb(ex, [r])
+                    if r.status == 'return':
+                        ctx.prove(ex, r, r.ret.disc == 0, 'the server encoder refuses a write of the target', enc.name + '@response')
+        paths = nxt
+    done = 0
+    site = case.fn.name + '@response'
+    for p in paths:
+        wb = p.st['#dst2']
+        src2 = Buf('bytesmut', wb.arr, wb.off, wb.len)
+        results = c05.drive(ex, case.fn, case.args, {'#src': src2}, [], {}, 10, c05.opt_item, nseg=1, start=p)
+        for r, rel, end in results:
+            ctx.absorb(ex, [r])
+            if end == 'calls':
+                ctx.out.inconclusive.append('decode call bound reached (response)')
+            elif end == 'err':
+                ctx.prove(ex, r, F, 'what the real server answered is refused by the real client decoder', site)
+            elif end == 'quiet':
+                done += 1
+                prove_concat(ctx, ex, r, rel, [(b.arr, b.off, b.len) for b in ritems], 'bytes released to the application differ from the bytes the target wrote', site)
+    return done
 
 
 def padding_grid(ex):
